@@ -6,11 +6,17 @@
                                                                        (av / iv: code=1)
    {"op":"scan","bad":"double|narrow","tree":{"l":..,"o":[[kind,code]..],"k":[..]}}
                                                                     -> ok | bad <a/b/c>:<kind>:<code>
+   {"op":"ctx","flag":b,"path":["fn"|"sub"|"subkeep",…]}            -> flag=1 fm=1 keep=0
+   {"op":"site","flag":b,"path":[…],"src":{"k":"closure","aval":..,"arr":..} | {"k":"scan","aval":..,"arr":..} |
+      {"k":"lit","aval":..,"prefer":..,"src":..} | {"k":"kw","aval":..} | {"k":"hscalar","src":..} | {"k":"hbind","dt":..}}
+                                                                    -> code=11 path=f64>f64>f64 final=f64 node=true
+   {"op":"irnp","code":null|n,"default":"none|float32|float64"}     -> f64 | none
    {"op":"x64","glob":b,"loc":null|b,"prog":P}                      -> glob=b raised=b seen=01…
       P ::= "skip" | "raise" | {"set":b} | {"seq":[P,P]} | {"temp":b,"body":P} | {"force":b,"body":P}
 -/
 import Lean.Data.Json
 import J2O.Model.C09
+import J2O.Model.C09Scope
 open Lean J2O.C09
 
 def fkOf : String → Option FK
@@ -72,6 +78,25 @@ def bitS (b : Bool) : String := if b then "1" else "0"
 def boundStr (b : Bound) (flag : Bool) : String :=
   s!"code={b.code} path={">".intercalate (b.path.map fkStr)} final={fkStr (b.final flag)} node={b.asNode}"
 
+def childOf : String → Except String Child
+  | "fn" => pure .fnScope | "sub" => pure .subgraph | "subkeep" => pure .subgraphKeep
+  | s => throw s!"bad child kind {s}"
+
+def pathOfJ (j : Json) : Except String (List Child) := do
+  let arr ← j.getObjValAs? (Array Json) "path"
+  arr.toList.mapM (fun x => do childOf (← x.getStr?))
+
+def srcOfJ (j : Json) : Except String Src := do
+  let k ← j.getObjValAs? String "k"
+  match k with
+  | "closure" => pure (.closure (optFk j "aval") ((optFk j "arr").getD .f32))
+  | "scan" => pure (.scanConst ((optFk j "aval").getD .f32) ((optFk j "arr").getD .f32))
+  | "lit" => pure (.literal (optFk j "aval") (optFk j "prefer") ((optFk j "src").getD .f64))
+  | "kw" => pure (.staticKw ((optFk j "aval").getD .f32))
+  | "hscalar" => pure (.helperScalar ((optFk j "src").getD .f32))
+  | "hbind" => pure (.helperBind ((optFk j "dt").getD .f32))
+  | _ => throw "bad src kind"
+
 def stepJ (j : Json) : Except String String := do
   let op ← j.getObjValAs? String "op"
   match op with
@@ -101,6 +126,24 @@ def stepJ (j : Json) : Except String String := do
     match firstBad f t with
     | none => pure "ok"
     | some (p, o) => pure s!"bad {"/".intercalate p}:{o.kind}:{o.code}"
+  | "ctx" =>
+    let c := descend (rootCtx (getB j "flag")) (← pathOfJ j)
+    pure s!"flag={bitS c.flag} fm={bitS c.fm} keep={bitS c.keep}"
+  | "site" =>
+    let flag := getB j "flag"
+    let s : Site := ⟨← pathOfJ j, ← srcOfJ (← j.getObjVal? "src")⟩
+    match s.bound refP flag with
+    | some b => pure (boundStr b flag)
+    | none => pure "none"
+  | "irnp" =>
+    let code : Option Nat := match j.getObjValAs? Nat "code" with
+      | .ok n => some n
+      | .error _ => none
+    let d : Option FK := match j.getObjValAs? String "default" with
+      | .ok "float32" => some .f32 | .ok "float64" => some .f64 | .ok "float16" => some .f16 | _ => none
+    match irToNp code d with
+    | some k => pure (fkStr k)
+    | none => pure "none"
   | "x64" =>
     let g := getB j "glob"
     let loc : Option Bool := match j.getObjValAs? Bool "loc" with
